@@ -63,6 +63,7 @@ func allProps() []Prop {
 		rr[i].NoReplay = true
 	}
 	rrwin := caseJobs("VerifH_rrwin", map[string][]int{"k": {1, 2}}, []string{"k"}, "rr")
+	grow := caseJobs("VerifH_grow", map[string][]int{"interference": {0, 1}}, []string{"interference"})
 	cnt := one("VerifH_cnt")
 	errpick := one("VerifH_errpick")
 	reserr := one("VerifH_reserr")
@@ -160,7 +161,7 @@ func allProps() []Prop {
 		{ID: "C14", Jobs: meJobs, Assume: commonAssume, Bounds: meBounds},
 		{ID: "C01", Jobs: cat(usc, uccs, pick, done), Assume: commonAssume, Bounds: gbBounds},
 		{ID: "C02", Jobs: cat(usc, uccs, pick, done, rr, rrwin), Assume: commonAssume, Bounds: gbBounds},
-		{ID: "C03", Jobs: cat(initJ, usc, uccs, pick, done), Assume: commonAssume, Bounds: gbBounds},
+		{ID: "C03", Jobs: cat(initJ, usc, uccs, pick, done, grow), Assume: commonAssume, Bounds: gbBounds},
 		{ID: "C04", Jobs: cat(cnt, initJ, usc, errpick, pick, done), Assume: commonAssume, Bounds: gbBounds},
 		{ID: "C05", Jobs: allGb, Panics: true, Assume: commonAssume, Bounds: gbBounds},
 		{ID: "C06", Jobs: allGb, Progress: true, Assume: commonAssume, Bounds: gbBounds},
